@@ -23,6 +23,13 @@ from vlib.core import Check
 from vlib.tr import CONE, Cx, Tr
 
 LEVEL = "proof"
+ENGINE = 'E1 exprvc'
+CLAIM = (
+    "Third Mandelstam = actual invariant mass squared, Kibble <= 0 and indicator = 1 on every physical event (Gram + Lagrange identities), indicator = 1 iff sigma2 within the PDG limits on the bounding box else the caller's outside value (factorisation over sqrt(sigma1) + sign lemma), Kallen totally symmetric and factorised: all as SMT obligations over all real values, no bound."
+)
+NOTE = (
+    "Trusted: z3 5.1 / cvc5 1.0.3 'unsat' answers; the SymPy-node -> SMT translation table (vlib/tr.py), cross-checked on every run at each cover model against numpy evaluation of the real tree; floats treated as exact reals (A-arith); per-event semantics of array expressions (A-batch). Lemma obligations (body meets spec, Gram/Lagrange/factor identities) are internal proof steps; a refuted lemma is reported as a violation only when the property-level replay on the real code reproduces a failure."
+)
 TECHNIQUE = (
     "contract-based deductive verification: E1 denotational VCs on the SymPy trees returned by the real "
     "functions; lemma chain (Gram identity, Lagrange identity, factorisation over sqrt(sigma1)) discharged by z3 nlsat / cvc5"
